@@ -97,6 +97,29 @@ func VH_C20_allocate_inrange_step() {
 	}
 }
 
+// the same step with the lower search bound at the extremes of int64 (negation, addition and % behave differently
+// there: -MinInt64 == MinInt64, MaxInt64+1 wraps): the returned identifier still lies within the configured bounds
+func VH_C20_allocate_inrange_extremes() {
+	{
+		r := c20R()
+		func() {
+			g, live := c20state(r)
+			ext := []int64{-9223372036854775808, -9223372036854775807, -9223372036854775806, -(1 << 62), -(1 << 32) - 1, 1 << 32, 1 << 62, 9223372036854775806, 9223372036854775807}
+			a := ext[vrt.Choose("extreme", 0, len(ext)-1)]
+			b := int64(vrt.I16("b"))
+			id, err := g.Allocate_inRange(a, b)
+			if err == nil {
+				c20post(g, live, r, id, "Allocate_inRange (extreme lower bound)")
+				c20inv(g, r, "Allocate_inRange (extreme lower bound)")
+			} else {
+				for i := int64(0); i < r; i++ {
+					vrt.Assert(vrt.MapHas(g.usedMap, i) == live[i], "failed Allocate_inRange (extreme lower bound) leaves live set")
+				}
+			}
+		}()
+	}
+}
+
 func VH_C20_free_step() {
 	{
 		r := c20R()
